@@ -383,3 +383,150 @@ Proof.
   intros. destruct (composes_with_retry_middle outer maxr inner s w H H0) as [A _]. rewrite A.
   now rewrite (map_res_id _ s (effo_id inner H1)).
 Qed.
+
+(** ** the retry clauses of the acceptor only read the trace shape *)
+Definition s_ncalls (l : list shape) : nat := length (filter (fun x => match x with SCall _ => true | _ => false end) l).
+Definition s_hooks (l : list shape) : list Z := flat_map (fun x => match x with SHook n => [n] | _ => [] end) l.
+Fixpoint s_indices (k : nat) (l : list shape) : bool :=
+  match l with
+  | [] => true
+  | SCall j :: l' => Nat.eqb j k && s_indices (S k) l'
+  | _ :: l' => s_indices k l'
+  end.
+Lemma ncalls_shapes : forall tr, ncalls tr = s_ncalls (shapes tr).
+Proof. induction tr as [|[k v|n] tr IH]; simpl; auto. unfold ncalls, s_ncalls in *. simpl. now rewrite IH. Qed.
+Lemma hooks_shapes : forall tr, hooks tr = s_hooks (shapes tr).
+Proof. induction tr as [|[k v|n] tr IH]; simpl; auto. unfold hooks, s_hooks in *. simpl. now rewrite IH. Qed.
+Lemma indices_shapes : forall tr k, call_indices_from k tr = s_indices k (shapes tr).
+Proof. induction tr as [|[j v|n] tr IH]; intros k; simpl; auto. now rewrite IH. Qed.
+
+(** the bare run numbers its calls consecutively and counts them *)
+Definition counted (k0 : nat) (w : world) : Prop :=
+  w_calls w = (k0 + ncalls (w_trace w))%nat /\ call_indices_from k0 (w_trace w) = true.
+Lemma ncalls_app : forall a b, ncalls (a ++ b) = (ncalls a + ncalls b)%nat.
+Proof. intros. unfold ncalls. now rewrite filter_app, app_length. Qed.
+Lemma indices_app_call : forall tr k0 v,
+  call_indices_from k0 tr = true -> call_indices_from k0 (tr ++ [ECall (k0 + ncalls tr) v]) = true.
+Proof.
+  induction tr as [|[j x|n] tr IH]; intros k0 v H; simpl in *.
+  - rewrite Nat.add_0_r, Nat.eqb_refl. reflexivity.
+  - apply andb_true_iff in H as [H1 H2]. rewrite H1. simpl.
+    replace (k0 + ncalls (ECall j x :: tr))%nat with (S k0 + ncalls tr)%nat by (unfold ncalls; simpl; lia).
+    now apply IH.
+  - replace (ncalls (ERetryHook n :: tr)) with (ncalls tr) by reflexivity. now apply IH.
+Qed.
+Lemma indices_app_hook : forall tr k0 n,
+  call_indices_from k0 tr = true -> call_indices_from k0 (tr ++ [ERetryHook n]) = true.
+Proof.
+  induction tr as [|[j x|m] tr IH]; intros k0 n H; simpl in *; auto.
+  apply andb_true_iff in H as [H1 H2]. rewrite H1. simpl. now apply IH.
+Qed.
+Lemma counted_scripted : forall k0 s w, counted k0 w -> counted k0 (fst (scripted s w)).
+Proof.
+  intros k0 s w [A B]. unfold counted, scripted. simpl. rewrite ncalls_app. split.
+  - unfold ncalls at 2. simpl. lia.
+  - rewrite A. now apply indices_app_call.
+Qed.
+Lemma counted_retry_loop : forall k0 s n num depth w outs e, counted k0 w ->
+  counted k0 (fst (retry_loop (scripted s) n num depth w outs e)).
+Proof.
+  intros k0 s. induction n as [|n IH]; intros num depth w outs e Hc; cbn [retry_loop]; auto.
+  destruct (done_upto depth (w_msg w)); cbn [fst]; auto.
+  pose proof (counted_scripted k0 s w Hc) as P. destruct (scripted s w) as [w1 r]. cbn [fst] in P.
+  destruct r; cbn [fst]; auto. apply IH. destruct P as [A B]. unfold counted, emit. cbn [w_calls w_trace].
+  rewrite ncalls_app. split; [unfold ncalls at 2; simpl; lia | now apply indices_app_hook].
+Qed.
+Lemma counted_bare : forall maxr s w, w_trace w = [] ->
+  counted (w_calls w) (fst (mw_sem repaired (MRetry maxr) (scripted s) w)).
+Proof.
+  intros maxr s w Ht. cbn [mw_sem].
+  assert (C0: counted (w_calls w) w) by (unfold counted; rewrite Ht; simpl; split; auto; unfold ncalls; simpl; lia).
+  pose proof (counted_scripted _ s w C0) as P. destruct (scripted s w) as [w1 r]. simpl in P.
+  destruct r; simpl; auto. now apply counted_retry_loop.
+Qed.
+
+(** the first event of a Retry run is the first attempt *)
+Definition extends (h : handler) : Prop := forall w, exists t, w_trace (fst (h w)) = w_trace w ++ t.
+Lemma retry_loop_extends : forall h, extends h -> forall n num depth w outs e,
+  exists t, w_trace (fst (retry_loop h n num depth w outs e)) = w_trace w ++ t.
+Proof.
+  intros h Hh. induction n as [|n IH]; intros; simpl.
+  - exists []. now rewrite app_nil_r.
+  - destruct (done_upto depth (w_msg w)); simpl; [exists []; now rewrite app_nil_r|].
+    destruct (Hh w) as [t Ht]. destruct (h w) as [w1 r]. simpl in Ht.
+    destruct r; simpl; try (exists t; exact Ht).
+    destruct (IH (num + 1)%Z depth (emit w1 (ERetryHook num)) outs0 e0) as [t2 H2].
+    rewrite H2. unfold emit. simpl. rewrite Ht. exists (t ++ [ERetryHook num] ++ t2). now rewrite !app_assoc.
+Qed.
+Lemma retry_first_seen : forall maxr inner s w, forallb is_simple inner = true -> w_trace w = [] ->
+  first_seen (w_trace (fst (mw_sem repaired (MRetry maxr) (stack repaired inner (scripted s)) w)))
+  = Some (view (entry_msg inner (w_msg w))).
+Proof.
+  intros maxr inner s w Hi Ht. cbn [mw_sem].
+  assert (E: extends (stack repaired inner (scripted s))).
+  { intros x. pose proof (stack_char inner Hi (scripted s) x) as CH. cbv zeta in CH.
+    destruct CH as (_ & _ & _ & _ & _ & C6). rewrite C6. simpl. eauto. }
+  pose proof (stack_char inner Hi (scripted s) w) as CH. cbv zeta in CH.
+  destruct CH as (_ & _ & _ & _ & _ & C6). simpl in C6. rewrite Ht in C6. simpl in C6.
+  destruct (stack repaired inner (scripted s) w) as [w1 r]. simpl in C6.
+  destruct r; simpl; try (rewrite C6; reflexivity).
+  destruct (retry_loop_extends _ E (retry_iters maxr) 1%Z (length (m_ctx (w_msg w1))) w1 outs e) as [t Hx].
+  rewrite Hx, C6. reflexivity.
+Qed.
+
+(** ** chains with one Retry pass [accept_retry] *)
+Theorem retry_accepted : forall outer maxr inner s w0,
+  forallb is_simple outer = true -> forallb is_simple inner = true ->
+  let '(tr, r, v) := observe (stack repaired (outer ++ MRetry maxr :: inner) (scripted s)) w0 in
+  accept_retry outer maxr inner s w0 tr r v = true.
+Proof.
+  intros outer maxr inner s w0 Ho Hi. unfold observe, accept_retry, clauses_retry, bare_retry.
+  set (w := W (w_msg w0) (w_calls w0) []).
+  destruct (middle_sim outer maxr inner s w Ho Hi) as (A & B & T & K & TR).
+  pose proof (stack_ctx (outer ++ MRetry maxr :: inner) _ (scripted_ctx s) w) as CX.
+  pose proof (counted_bare maxr (map_res (effo inner) s) w eq_refl) as [N1 N2].
+  pose proof (mw_ctx (MRetry maxr) _ (scripted_ctx (map_res (effo inner) s)) w) as CB.
+  pose proof (retry_first_seen maxr inner s (set_msg w (entry_msg outer (w_msg w))) Hi eq_refl) as FS.
+  rewrite <- TR in FS. clear TR.
+  destruct (stack repaired (outer ++ MRetry maxr :: inner) (scripted s) w) as [w1 r].
+  destruct (mw_sem repaired (MRetry maxr) (scripted (map_res (effo inner) s)) w) as [wb rb].
+  simpl in *. unfold all_true. cbn [forallb].
+  rewrite ncalls_shapes, T, <- ncalls_shapes.
+  assert (E0: Nat.eqb (ncalls (w_trace wb)) (w_calls wb - w_calls w0) = true) by (apply Nat.eqb_eq; lia).
+  rewrite E0.
+  rewrite indices_shapes, T, <- indices_shapes, N2.
+  rewrite (hooks_shapes (w_trace w1)), T, <- hooks_shapes.
+  assert (E2: list_eqb Z.eqb (hooks (w_trace wb)) (hooks (w_trace wb)) = true)
+    by (apply list_eqb_spec; auto; intros; apply Z.eqb_eq).
+  rewrite E2, K, K_eqb_refl, FS.
+  rewrite <- entry_app, seen_ok_entry.
+  unfold view, ctx_done. simpl. rewrite CX, B, CB.
+  rewrite !Bool.eqb_reflx, optZ_eqb_refl. reflexivity.
+Qed.
+
+(** ** the theorem: every chain, every script, every starting message *)
+Lemma split_retry_none : forall mws o, split_retry mws = (o, None) -> forallb is_simple mws = true.
+Proof.
+  induction mws as [|m mws IH]; intros o H; simpl in *; auto.
+  destruct m; try discriminate; destruct (split_retry mws) as [o' [x|]]; try discriminate; simpl; eauto.
+Qed.
+Lemma split_retry_some : forall mws o r i, split_retry mws = (o, Some (r, i)) ->
+  mws = o ++ MRetry r :: i /\ forallb is_simple o = true.
+Proof.
+  induction mws as [|m mws IH]; intros o r i H; simpl in *; [discriminate|].
+  destruct m; try (destruct (split_retry mws) as [o' [[r' i']|]]; try discriminate;
+                   inversion H; subst; destruct (IH _ _ _ eq_refl) as [E F]; subst mws; simpl; auto; fail).
+  inversion H; subst. auto.
+Qed.
+
+Theorem model_accepted : forall mws s w0,
+  let '(tr, r, v) := observe (stack repaired mws (scripted s)) w0 in
+  accept mws s w0 tr r v = true.
+Proof.
+  intros mws s w0. unfold accept.
+  destruct (split_retry mws) as [outer [[maxr inner]|]] eqn:E.
+  - destruct (forallb is_simple inner) eqn:Hi.
+    + destruct (split_retry_some _ _ _ _ E) as [-> Ho]. now apply retry_accepted.
+    + destruct (observe _ _) as [[tr r] v]. reflexivity.
+  - apply simple_accepted. eapply split_retry_none; eauto.
+Qed.
